@@ -10,7 +10,7 @@ from lib import core, runner, planutil, sqlutil as U
 
 COLTYPES = {
     "smallint": "Int16", "int": "Int32", "bigint": "Int64", "double": "Float64", "boolean": "Bool",
-    "varchar": "String", "date": "Date", "decimal(10,2)": "Decimal",
+    "varchar": "String", "date": "Date", "decimal(10,2)": "Decimal", "vector(3)": "Vector", "interval": "Interval",
 }
 # literal -> {target type: expected stored display value, or FAIL}
 LITS = {
@@ -26,6 +26,11 @@ LITS = {
     "'1.5'": {"smallint": "FAIL", "int": "FAIL", "bigint": "FAIL", "double": "1.5", "varchar": "1.5"},
     "' 7'": {"varchar": " 7"},
     "''": {"smallint": "FAIL", "int": "FAIL", "bigint": "FAIL", "double": "FAIL", "boolean": "FAIL", "varchar": "", "date": "FAIL", "decimal(10,2)": "FAIL"},
+    "'[1,2,3]'": {"vector(3)": "[1,2,3]", "varchar": "[1,2,3]", "int": "FAIL", "smallint": "FAIL", "bigint": "FAIL", "double": "FAIL", "boolean": "FAIL", "date": "FAIL", "decimal(10,2)": "FAIL", "interval": "FAIL"},
+    "'[1,2]'": {"vector(3)": "FAIL", "varchar": "[1,2]"},
+    "'[1,2,3,4]'": {"vector(3)": "FAIL"},
+    "interval '1' day": {"interval": "1 day", "varchar": "1 day?", "int": "FAIL", "smallint": "FAIL", "bigint": "FAIL", "double": "FAIL", "boolean": "FAIL", "date": "FAIL"},
+    "cast('1 hour' as interval)": {"interval": "1 hour"},
     "'abc'": {"smallint": "FAIL", "int": "FAIL", "bigint": "FAIL", "double": "FAIL", "boolean": "FAIL", "varchar": "abc", "date": "FAIL", "decimal(10,2)": "FAIL"},
     "'12'": {"smallint": "12", "int": "12", "bigint": "12", "double": "12", "varchar": "12", "date": "FAIL"},
     "true": {"boolean": "true", "varchar": "true", "int": "1?", "smallint": "1?", "bigint": "1?"},
@@ -37,7 +42,7 @@ LITS = {
 def insert_cases():
     for ty, kind in COLTYPES.items():
         for constraint in ("", " not null", " primary key", "table-level primary key"):
-            if "primary key" in constraint and ty in ("double", "boolean", "decimal(10,2)"):
+            if "primary key" in constraint and ty in ("double", "boolean", "decimal(10,2)", "vector(3)", "interval"):
                 continue
             for lit in LITS:
                 yield {"type": ty, "constraint": constraint.strip(), "source": f"values ({lit})", "lit": lit}
